@@ -302,6 +302,17 @@ func c16Header(c *Ctx, p *Prog) {
 		c.Undecided(R, "header:table", site, why)
 		return
 	}
+	// the low bound of the sub-slice the loop ranges over, if any
+	var sliceLow ssa.Value
+	for b := range lp.Blocks {
+		for _, in := range b.Instrs {
+			if ia, ok := in.(*ssa.IndexAddr); ok {
+				if sl, ok := ia.X.(*ssa.Slice); ok && sl.Low != nil {
+					sliceLow = sl.Low
+				}
+			}
+		}
+	}
 	n := 0
 	for _, o := range outs {
 		var haveNode, same *bool
@@ -335,6 +346,7 @@ func c16Header(c *Ctx, p *Prog) {
 		extend := haveNode != nil && *haveNode && same != nil && *same
 		var lenStore, newNode bool
 		var startOK bool
+		dbgStart := ""
 		for _, a := range o.Actions {
 			if a.Kind == "store" && a.Args[0].Op == "fieldaddr" && a.Args[0].Obj == lenF && a.Args[0].Args[0].Op != "alloc" {
 				// node.Len = node.Len + 1
@@ -345,10 +357,57 @@ func c16Header(c *Ctx, p *Prog) {
 			}
 			if a.Kind == "store" && a.Args[0].Op == "fieldaddr" && a.Args[0].Obj == startF && a.Args[0].Args[0].Op == "alloc" {
 				newNode = true
-				// parent.Start + j
+				// the new node starts at the absolute position of the key being visited: keys[lo:hi][j] is at lo+j,
+				// keys[i] at i
 				v := a.Args[1]
-				if v.Op == "binop" && v.Tok == token.ADD && (v.Args[0].IsFieldLoad(startF) || v.Args[1].IsFieldLoad(startF)) {
-					startOK = true
+				canon := func(s *Sym) string {
+					if s.Op == "binop" && s.Tok == token.ADD {
+						x, y := s.Args[0].String(), s.Args[1].String()
+						if y < x {
+							x, y = y, x
+						}
+						return x + "+" + y
+					}
+					return s.String()
+				}
+				var where []*Sym
+				for k2 := range o.Assign {
+					where = append(where, o.AtomSyms[k2])
+				}
+				for _, a2 := range o.Actions {
+					where = append(where, a2.Args...)
+				}
+				for _, w := range where {
+					w.Walk(func(g *Sym) {
+						if g.Op != "call" || !strings.Contains(g.Name, ".Get") || len(g.Args) == 0 {
+							return
+						}
+						recv := g.Args[0]
+						if recv.Op == "load" && recv.Args[0].Op == "indexaddr" {
+							base, idx := recv.Args[0].Args[0], recv.Args[0].Args[1]
+							abs := idx.String()
+							if base.Op == "opaque" && sliceLow != nil {
+								// the ranged sub-slice was cut before the loop: keys[lo:hi][j] is at lo+j
+								x, y := strings.TrimPrefix(o.Val(sliceLow).String(), "opaque:"), idx.String()
+								if y < x {
+									x, y = y, x
+								}
+								abs = x + "+" + y
+							}
+							if base.Op == "slice" && len(base.Args) >= 2 && !(base.Args[1].Op == "zero" || base.Args[1].String() == "0") {
+								x, y := base.Args[1].String(), idx.String()
+								if y < x {
+									x, y = y, x
+								}
+								abs = x + "+" + y
+							}
+							if strings.ReplaceAll(canon(v), "opaque:*", "*") == strings.ReplaceAll(abs, "opaque:*", "*") {
+								startOK = true
+							} else {
+								dbgStart = canon(v) + " vs " + abs + " base=" + base.Op
+							}
+						}
+					})
 				}
 			}
 		}
@@ -356,7 +415,7 @@ func c16Header(c *Ctx, p *Prog) {
 		if extend {
 			c.Check(lenStore && !newNode, R, key, site, "the current node grows by one", "an equal value does not extend the current header node by one")
 		} else {
-			c.Check(newNode && startOK && !lenStore, R, key, site, "a new node starts at parent.Start + j", "a differing value does not start a new header node at the key's position (parent.Start + j)")
+			c.Check(newNode && startOK && !lenStore, R, key, site, "a new node starts at parent.Start + j", "a differing value does not start a new header node at the key's position (parent.Start + j) "+truncate(dbgStart, 300))
 		}
 	}
 	c.Floor(R, "header run cases", n, 3)
@@ -376,6 +435,39 @@ func c16Header(c *Ctx, p *Prog) {
 			}
 		}
 	})
+	// or an index loop from parent.Start while i < parent.Start+parent.Len
+	for _, lp2 := range naturalLoops(walk) {
+		for _, in := range lp2.Header.Instrs {
+			phi, ok := in.(*ssa.Phi)
+			if !ok || !isInteger(phi.Type()) {
+				continue
+			}
+			fromStart := false
+			for i, e := range phi.Edges {
+				if !lp2.Blocks[lp2.Header.Preds[i]] {
+					if f, _ := loadOfField(e); f == startF {
+						fromStart = true
+					}
+				}
+			}
+			if !fromStart {
+				continue
+			}
+			for _, r := range *phi.Referrers() {
+				bo, ok := r.(*ssa.BinOp)
+				if !ok || bo.Op != token.LSS || bo.X != phi {
+					continue
+				}
+				if sum, ok := bo.Y.(*ssa.BinOp); ok && sum.Op == token.ADD {
+					f1, _ := loadOfField(sum.X)
+					f2, _ := loadOfField(sum.Y)
+					if (f1 == startF && f2 == lenF) || (f1 == lenF && f2 == startF) {
+						okRange = true
+					}
+				}
+			}
+		}
+	}
 	c.Check(okRange, R, "header:parent-range", site, "children are built from keys[parent.Start : parent.Start+parent.Len]", "a node's children are not built from exactly its own key range")
 }
 
